@@ -9,7 +9,8 @@ tie        : harness/c19_watchdog.cc runs the REAL library under a virtual clock
              system-call boundary inside the critical sections; the native driver pplv_c19 replays
              the same schedule on the Lean model, diffs the traces (handler firings with times,
              timer calls with values, exceptions) and judges the clauses on the REAL trace.
-verdict    : clause failures of the real trace.  The variant of `Time::operator==` (as written /
+verdict    : clause failures of the real trace, and any difference between the model's trace and the
+             library's (model = code is part of the claim).  The variant of `Time::operator==` (as written /
              repaired) is MEASURED (`eqbug 0|1` printed by the harness), never assumed.
 """
 import collections, hashlib, json, os, re, sys
@@ -148,7 +149,7 @@ def run(ctx):
     n_ok = 0
     trace_diff = []
     fails = collections.defaultdict(list)          # case -> [(clause, detail, tags)]
-    eq_hits = defer_cases = 0
+    eq_hits = defer_cases = model_deferrals = 0
     summary = None
     for line in open(vp):
         line = line.rstrip("\n")
@@ -157,6 +158,9 @@ def run(ctx):
             m = re.search(r"eqhits=(\d+) defer=(\d+)", line)
             if m:
                 eq_hits += int(m.group(1)) > 0; defer_cases += int(m.group(2)) > 0
+            m = re.search(r"mdefer=(\d+)", line)
+            if m:
+                model_deferrals += int(m.group(1)) > 0
         elif line.startswith("MISMATCH "):
             t = line.split(" ")
             name, clause = t[1], t[2]
@@ -199,11 +203,21 @@ def run(ctx):
                 reported[clause] += 1
             ctx.violation(what, replay, found_input=True, record=rec)
 
-    # a trace difference alone is a disagreement between model and code, not yet a violation of the
-    # property; it is reported and counted (the clauses above were judged on the real trace)
-    for name, detail in trace_diff[:5]:
+    # model = code is what ties the theorems to /repo: a trace difference (handler firings with times,
+    # timer calls with values, exceptions) means the proofs are about a different program than the one
+    # that exists, so the tie obligation is broken; the schedule is the failing input.  (The clauses
+    # above were judged on the real trace independently.)
+    for name, detail in trace_diff[:3]:
+        lines = cases.get(name, [])
+        ctx.violation("C19 correspondence broken: the Lean transition system and the library disagree on case %s: %s"
+                      % (name, detail),
+                      {"case": name, "clause": "correspondence", "detail": detail, "journal": lines, "eqbug": eqbug,
+                       "script": to_script(lines) if not name.startswith("weight") else None,
+                       "harness": "c19_watchdog.cc",
+                       "how": "bin/check C19 --replay <this file>; re-align PPLV/Watchdog/Model.lean with src/Watchdog.cc"},
+                      found_input=True)
+    for name, detail in trace_diff[3:8]:
         print("CORRESPONDENCE-DIFF C19 %s %s" % (name, detail), flush=True)
-        ctx.notes.append("trace diff %s %s" % (name, detail))
 
     # -------------------------------------------------------------- broken proof obligations
     for b in broken:
@@ -254,6 +268,7 @@ def run(ctx):
         unexplained_failures_not_reported_again=suppressed,
         clause_failures_explained_by_known_finding=dict(known_hist),
         driver_summary=summary,
+        cases_with_a_timer_expiry_inside_a_critical_section=model_deferrals,
     )
     ctx.assumptions += [
         "the handler body is atomic and takes no time (the signal is blocked while its handler runs); signal latency is outside the model",
